@@ -250,7 +250,13 @@ func randomGame(c *Ctx) *genGame {
 		}
 	}
 	result := func(slot string) {
-		g.p.Ops = append(g.p.Ops, &ptn.Result{Result: resultPool[r.Intn(len(resultPool))]})
+		res := resultPool[r.Intn(len(resultPool))]
+		if r.Chance(1, 30) { // outside the safe fragment: not one of the 25 strings of resultRE
+			res = []string{"2-0", "R", "", "R-0.", "a1", "1.", "r-0", "R-0 x", "0-0-0", "1/2"}[r.Intn(10)]
+			g.safe = false
+			feat("result.unsafe")
+		}
+		g.p.Ops = append(g.p.Ops, &ptn.Result{Result: res})
 		feat("result." + slot)
 	}
 	number := func(n int) {
@@ -287,6 +293,11 @@ func randomGame(c *Ctx) *genGame {
 		if r.Chance(1, 6) {
 			mods = []string{"!", "?", "'", "!!", "??", "?!", "!?", "''", "'!", "!'?"}[r.Intn(10)]
 			feat("modifiers")
+		}
+		if r.Chance(1, 80) { // outside the safe fragment: only ?!' are split off a move token
+			mods = []string{"*", "?*", "*!", "x", ".", "!.", "\"", " ", "? !", "1", "}"}[r.Intn(11)]
+			g.safe = false
+			feat("modifiers.unsafe")
 		}
 		g.p.Ops = append(g.p.Ops, &ptn.Move{Move: m, Modifiers: mods})
 		comment("after-move")
